@@ -48,6 +48,11 @@ async def emit_case(case):
     oids = [OID(".".join(map(str, o))) for o in case["oids"]]
     vals = case.get("vals", [])
     err = None
+    if case.get("py"):
+        # the same operations through the pythonic wrapper, OIDs given as strings (optionally with a leading dot)
+        from puresnmp import PyWrapper
+        c = PyWrapper(c)
+        oids = [("." if case.get("dot") else "") + ".".join(map(str, o)) for o in case["oids"]]
     try:
         if op == "get":
             await c.get(oids[0])
